@@ -723,10 +723,13 @@ func short(xs []string) []string {
 }
 
 func TestMain(m *testing.M) {
+	vt.ReplayRepeat["tagrace"] = 100
 	vt.Main(m, "C09",
 		vt.NewLeg("main", 2500, 6000, 16, genCase, runCase),
 		vt.NewLeg("alias", 1200, 4000, 8, genAlias, runCase),
 		vt.NewLeg("wide", 300, 1200, 4, genWide, runCase),
+		vt.NewLeg("tagrace", 300, 1500, 4, genTagRace, runTagRace),
+		vt.NewLeg("delfault", 400, 2000, 4, genDelFault, runDelFault),
 	)
 }
 
